@@ -552,6 +552,13 @@ class Expander:
             v = self._tr(st.value)
             for t in st.targets:
                 self._bind_target(t, v, env)
+            # `X = E.assign(a=u, b=w)` (pandas) is `X = E; X["a"] = u; X["b"] = w`: the columns are recorded as stores into X
+            c_ = st.value
+            if isinstance(c_, ast.Call) and isinstance(c_.func, ast.Attribute) and c_.func.attr == "assign" and not c_.args and c_.keywords and \
+                    all(k_.arg for k_ in c_.keywords) and len(st.targets) == 1 and isinstance(st.targets[0], ast.Name):
+                base_t = self._tr(c_.func.value)
+                for k_ in c_.keywords:
+                    self.stores.append(Store("sub", base_t, T("const", k_.arg), self._tr(k_.value), k_.value, st, tuple(self.guard_stack)))
             # `name = obj.attr = {}`: the local name and the attribute are ONE mutable object; stores through the name are
             # stores into the attribute
             if len(st.targets) > 1 and isinstance(st.value, (ast.Dict, ast.List, ast.Set, ast.Call)):
